@@ -177,6 +177,8 @@ KF_SORT = ("C01-KF4 ORDER BY [LIMIT] on a column that an equality with a literal
 KF_GARBLE = ("C01-KF5 WHERE over `l RIGHT JOIN r` whose inputs have same-named columns: the physical filter pushdown moves the "
              "whole predicate below the join onto r and resolves every reference to a column of l to the same-named column of r "
              "(FilterExec `c1@0 IS NOT DISTINCT FROM c1@0` on r), so rows are filtered by the wrong predicate before the join")
+KF_HANG = ("C01-KF6 a query whose physical plan contains a HashJoinExec intermittently never finishes (all worker threads parked, 0% "
+           "CPU): seen with target_partitions=3, batch_size=2 on LeftSemi/CollectLeft hash joins fed by RepartitionExec")
 KF_SETALL = ("C01-KF2 INTERSECT ALL / EXCEPT ALL are planned as LeftSemi / LeftAnti joins: multiplicities are not "
              "min / monus (EXCEPT ALL removes every copy of a row that occurs in the right input, INTERSECT ALL keeps every "
              "left copy)")
@@ -467,10 +469,21 @@ def run(pid, tier, seed, replay):
     todo = []
     n_unsupported = 0
     unsupported_msgs = {}
+    n_hung = 0
     for c in cases:
         if not c["ok"]:
             ck.fail_input("engine panicked: " + c["out"].get("err", "")[:300], brief(c))
             continue
+        if c.get("hung", 0) > 0:
+            # the engine did not finish within the time limit in c["hung"] attempts (each in a fresh runtime); a later attempt
+            # may have finished, in which case its rows are still compared below
+            n_hung += 1
+            b = brief(c)
+            b.update({"hung_attempts": c["hung"], "time_limit_s": c.get("hang_secs"), "physical_plan": c.get("plan", "")})
+            ck.fail_input("query did not finish within %s s in %d attempt(s)" % (c.get("hang_secs"), c["hung"]), b,
+                          key=KF_HANG if "HashJoinExec" in c.get("plan", "") else None)
+            if "err" in c["out"] and c["out"]["err"].startswith("timeout:"):
+                continue
         if "err" in c["out"] and unsupported(c["out"]["err"]):
             n_unsupported += 1
             m = c["out"]["err"][:120]
@@ -526,8 +539,14 @@ def run(pid, tier, seed, replay):
     # fixed witness corpus (harness ids >= 1000000, one query per listed finding): which finding did each one hit?
     witness = {}
     pos = {i: j for j, i in enumerate(dis)}
+    for c in cases:
+        if c["stream"] == "witness:KF6":    # liveness witness, run up to 8 times by the harness
+            if c.get("hung", 0) > 0:
+                witness["KF6"] = "C01-KF6"
+            else:
+                witness.setdefault("KF6", "did not hang this time (intermittent)")
     for i, c in enumerate(todo):
-        if c["stream"].startswith("witness:"):
+        if c["stream"].startswith("witness:") and c["stream"] != "witness:KF6":
             j = pos.get(i)
             witness[c["stream"][8:]] = ("agrees with the reference (finding no longer reproduces)" if j is None
                                         else (explained.get(j) or "UNEXPLAINED disagreement")[:7])
@@ -570,6 +589,7 @@ def run(pid, tier, seed, replay):
         "engine_unsupported_not_compared": n_unsupported,
         "engine_unsupported_messages": unsupported_msgs,
         "disagreements": n_dis,
+        "queries_that_hung_at_least_once": n_hung,
         "disagreements_explained_by_known_findings": n_known,
         "witness_corpus": witness,
         "traces_validated_against_impl": len(compared),
